@@ -161,9 +161,9 @@ def audit_axioms(theorems, imports):
     out = p.stdout
     res = {}
     # "'name' depends on axioms: [a, b]" or "'name' does not depend on any axioms"
-    for m in re.finditer(r"'([^']+)' depends on axioms:\s*\[([^\]]*)\]", out, re.S):
+    for m in re.finditer(r"'([^\s]+)' depends on axioms:\s*\[([^\]]*)\]", out, re.S):
         res[m.group(1)] = [a.strip() for a in m.group(2).replace("\n", " ").split(",") if a.strip()]
-    for m in re.finditer(r"'([^']+)' does not depend on any axioms", out):
+    for m in re.finditer(r"'([^\s]+)' does not depend on any axioms", out):
         res[m.group(1)] = []
     return p.returncode, res, out
 
